@@ -281,11 +281,24 @@ Proof.
     destruct (get_struct w h) as [[old L]|]; auto.
   - (* SetCol *)
     destruct (get_struct w h) as [[old L]|]; auto.
-    assert (G : forall prs w, g_repoint (set_tags prs w) = g_repoint w).
+    assert (G : forall c prs w, g_repoint (set_tags c prs w) = g_repoint w).
     { clear. induction prs as [|[a t] r]; simpl; intros; auto. rewrite IHr. auto. }
     destruct old as [|a0 old']; auto. destruct tags as [|t [|t2 ts]]; cbn [fst]; auto.
     + rewrite G. auto.
     + match goal with |- context [if ?c then _ else _] => destruct c end; cbn [fst]; auto. rewrite G. auto.
+  - (* Sort *)
+    destruct (get_struct w h) as [[old L]|]; auto. destruct key; cbn [fst].
+    + apply install_flag_nokeep; auto. constructor.
+    + destruct (Nat.leb (length old) 1); auto.
+  - (* AssignUniqueLabels *)
+    destruct (get_struct w h) as [[old L]|]; auto. cbn [fst].
+    assert (G : forall c prs w, g_repoint (set_tags c prs w) = g_repoint w).
+    { clear. induction prs as [|[a t] r]; simpl; intros; auto. rewrite IHr. auto. }
+    rewrite G. auto.
+  - (* GetLast *)
+    destruct (get_struct w h) as [[old L]|]; auto. destruct (nth_error (rev old) 0); auto.
+  - (* GetCol *) destruct (get_struct w h) as [[old L]|]; auto.
+  - (* Composition *) destruct (get_struct w h) as [[old L]|]; auto.
 Qed.
 
 (* the lattice invariant for every history made of non-re-pointing operations *)
@@ -307,7 +320,7 @@ Qed.
 (* the syntactic guard is satisfiable by a non-trivial history: slicing, +, extend from a Structure,
    copying slice assignment, pickling, s += s, -, *, -= *)
 Definition syntactic_example : list op :=
-  [NewStruct; AddNewAtom 0 1%Z; AddNewAtom 0 2%Z; AddNewAtom 0 3%Z; GetSlice 0 (mkSlice (Some 1%Z) None None);
+  [NewStruct; AddNewAtom 0 (lab 1); AddNewAtom 0 (lab 2); AddNewAtom 0 (lab 3); GetSlice 0 (mkSlice (Some 1%Z) None None);
    Add 0 1; Extend 2 0 CNone; SetSlice 2 (mkSlice (Some 0%Z) (Some 2%Z) None) 1 true; Pickle 2 true; IAdd 0 0;
    Sub 0 1; Mul 0 2%Z; ISub 0 1; GetIdx 2 [LInt 0%Z; LInt (-1)%Z] false; DelInt 2 0%Z; Reverse 2].
 
